@@ -283,6 +283,13 @@ def gen_line_items(rng, st):
                     its += chars(sep)
                 nits, nk = gen_numeral(rng)
                 st['numkinds'][nk] = st['numkinds'].get(nk, 0) + 1
+                if nits[0] != ('tok', 196):
+                    # digits after BIN (spaces apart) are binary digits: keep other numerals away from it
+                    k = len(its) - 1
+                    while k >= 0 and its[k][0] == 'sp':
+                        k -= 1
+                    if k >= 0 and its[k] == ('tok', 196):
+                        its += chars('(')
                 its += nits
             elif r < 0.70:
                 its += chars(rng.choice(('a', 'x', 'i', 'a$', 'n1', 'total'))) + chars(rng.choice(('=', '+', '-', '*', ',')))
